@@ -99,13 +99,15 @@ type rnGlobals struct {
 	minGuardians         int
 	minAdminDelay        uint64
 	minSoftDelay         uint64
+	pLock, pRevoke       int64
 }
 
 func rnSaveGlobals() rnGlobals {
 	return rnGlobals{constants.RewardTimeLimit, constants.UpdateMinNumMomentums, constants.MomentumsPerEpoch,
 		constants.StakeTimeUnitSec, constants.StakeTimeMinSec, constants.StakeTimeMaxSec,
 		constants.SentinelLockTimeWindow, constants.SentinelRevokeTimeWindow, verifier.ReceiverMismatchEnforcementHeight,
-		constants.InitialBridgeAdministrator, constants.MinGuardians, constants.MinAdministratorDelay, constants.MinSoftDelay}
+		constants.InitialBridgeAdministrator, constants.MinGuardians, constants.MinAdministratorDelay, constants.MinSoftDelay,
+		constants.PillarEpochLockTime, constants.PillarEpochRevokeTime}
 }
 func (x rnGlobals) restore() {
 	constants.RewardTimeLimit, constants.UpdateMinNumMomentums, constants.MomentumsPerEpoch = x.rtl, x.updMin, x.mpe
@@ -114,6 +116,7 @@ func (x rnGlobals) restore() {
 	verifier.ReceiverMismatchEnforcementHeight = x.gate
 	constants.InitialBridgeAdministrator, constants.MinGuardians = x.admin, x.minGuardians
 	constants.MinAdministratorDelay, constants.MinSoftDelay = x.minAdminDelay, x.minSoftDelay
+	constants.PillarEpochLockTime, constants.PillarEpochRevokeTime = x.pLock, x.pRevoke
 }
 
 type rnCoins struct{ znn, qsr *big.Int }
@@ -235,6 +238,7 @@ type rnCfg struct {
 	mpe        int64
 	autoUpdate bool
 	epochs     int
+	churn      bool // directed: a pillar registers at the start and is revoked in the first election tick of an epoch; the node is asked for statistics all the time
 }
 
 type rnMint struct {
@@ -261,6 +265,7 @@ type rnRun struct {
 	touched      map[types.Address]bool
 	credited     int
 	collectedOK  int
+	audit        *csAudit // questions asked to the node's consensus module so far
 }
 
 func (r *rnRun) fail(format string, a ...interface{}) {
@@ -558,6 +563,10 @@ func (r *rnRun) pillarPremises(e int64, ack *nom.Momentum) {
 		}
 		if int64(sumE) > constants.MomentumsPerEpoch {
 			r.fail("premise: epoch %d statistics expect %d momentums, an epoch has %d slots", e, sumE, constants.MomentumsPerEpoch)
+		}
+		// function of the chain: the statistics count exactly the momentums the chain has in that epoch
+		if inChain := r.epochMomentumCount(e, ack.Height); sumP != inChain || stats.TotalBlocks != inChain {
+			r.fail("C11 consensus-statistics: the statistics of epoch %d the pillar reward is computed from count %d produced momentums (TotalBlocks %d), the chain has %d momentums in that epoch: %s", e, sumP, stats.TotalBlocks, inChain, fmtEpochStats(stats, nil))
 		}
 		r.c.Hit("pillar-premises-checked")
 	}); p != "" {
@@ -1239,6 +1248,12 @@ func rnPickCfg(c *Ctx, id int) rnCfg {
 		if cfg.epochSec >= 900 {
 			cfg.epochs = 3 + c.R.Intn(2)
 		}
+		if id%4 == 1 && c.Args["churn"] != "0" {
+			// 3-4 election ticks per epoch, so that a pillar can be part of some finished ticks of an epoch and absent from later ones
+			cfg.churn = true
+			cfg.epochSec = []int64{1200, 900}[(id/4)%2]
+			cfg.epochs = 3
+		}
 	}
 	cfg.mpe = cfg.epochSec / constants.ConsensusConfig.BlockTime
 	return cfg
@@ -1256,6 +1271,9 @@ func rewardsNodeHistory(c *Ctx, id int) {
 	constants.StakeTimeMaxSec = 1200
 	constants.SentinelLockTimeWindow = 200
 	constants.SentinelRevokeTimeWindow = 150
+	// a pillar may be revoked 200 s after its registration for 400 s, and so on (production: 83 + 7 days)
+	constants.PillarEpochLockTime = 200
+	constants.PillarEpochRevokeTime = 400
 	constants.InitialBridgeAdministrator = g.User5.Address
 	constants.MinGuardians = 4
 	constants.MinAdministratorDelay = 6
@@ -1338,6 +1356,17 @@ func rewardsNodeHistory(c *Ctx, id int) {
 	znn := func(x int64) *big.Int { return new(big.Int).Mul(big.NewInt(x), big.NewInt(g.Zexp)) }
 	pick := func(l []types.Address) types.Address { return l[c.R.Intn(len(l))] }
 
+	registerLate := func() {
+		if !newPillarTried {
+			newPillarTried = true
+			from := g.Pillar7.Address
+			call("pillar-deposit", from, types.PillarContract, types.QsrTokenStandard, znn(200000), definition.ABIPillars.PackMethodPanic(definition.DepositQsrMethodName))
+			call("pillar-register", from, types.PillarContract, types.ZnnTokenStandard, new(big.Int).Set(constants.PillarStakeAmount), definition.ABIPillars.PackMethodPanic(definition.RegisterMethodName,
+				"TEST-pillar-late", g.Pillar7.Address, g.Pillar7.Address, uint8(c.R.Intn(101)), uint8(c.R.Intn(101))))
+			pillarNames = append(pillarNames, "TEST-pillar-late")
+			pillarOwner["TEST-pillar-late"] = g.Pillar7.Address
+		}
+	}
 	action := func() {
 		x := c.R.Intn(100)
 		switch {
@@ -1392,15 +1421,7 @@ func rewardsNodeHistory(c *Ctx, id int) {
 					name, info.BlockProducingAddress, rew, uint8(c.R.Intn(101)), uint8(c.R.Intn(101))))
 			}
 		case x < 69: // a new pillar enters mid-epoch
-			if !newPillarTried {
-				newPillarTried = true
-				from := g.Pillar7.Address
-				call("pillar-deposit", from, types.PillarContract, types.QsrTokenStandard, znn(200000), definition.ABIPillars.PackMethodPanic(definition.DepositQsrMethodName))
-				call("pillar-register", from, types.PillarContract, types.ZnnTokenStandard, new(big.Int).Set(constants.PillarStakeAmount), definition.ABIPillars.PackMethodPanic(definition.RegisterMethodName,
-					"TEST-pillar-late", g.Pillar7.Address, g.Pillar7.Address, uint8(c.R.Intn(101)), uint8(c.R.Intn(101))))
-				pillarNames = append(pillarNames, "TEST-pillar-late")
-				pillarOwner["TEST-pillar-late"] = g.Pillar7.Address
-			}
+			registerLate()
 		case x < 75 && len(r.liqTokens) > 0: // liquidity staking (bridge regime): stake, cancel, additional reward
 			from := []types.Address{g.User1.Address, g.User2.Address, g.User3.Address}[c.R.Intn(3)]
 			switch c.R.Intn(5) {
@@ -1420,6 +1441,8 @@ func rewardsNodeHistory(c *Ctx, id int) {
 				call("liq-additional-reward", g.User5.Address, types.LiquidityContract, types.ZnnTokenStandard, nil, definition.ABILiquidity.PackMethodPanic(definition.SetAdditionalRewardMethodName,
 					znn(10*k), znn(100*k)))
 			}
+		case x < 77 && newPillarTried && !cfg.churn: // the late pillar leaves again (only inside its revoke window; otherwise the call fails)
+			call("pillar-revoke", g.Pillar7.Address, types.PillarContract, types.ZnnTokenStandard, nil, definition.ABIPillars.PackMethodPanic(definition.RevokeMethodName, "TEST-pillar-late"))
 		case x < 81: // anyone may call Update
 			ca := rnContracts[c.R.Intn(len(rnContracts))]
 			call("update-"+rnCName(ca), pick(actors), ca, types.ZnnTokenStandard, nil, definition.ABICommon.PackMethodPanic(definition.UpdateMethodName))
@@ -1476,12 +1499,39 @@ func rewardsNodeHistory(c *Ctx, id int) {
 		}
 	default:
 		endTs := startTs + int64(cfg.epochs)*cfg.epochSec + cfg.rtl + 20
+		tickSec := constants.ConsensusConfig.BlockTime * int64(constants.ConsensusConfig.NodeCount)
+		ticksPerEpoch := cfg.epochSec / tickSec
+		lateRevoked, regTick := false, int64(-1)
+		if cfg.churn {
+			registerLate()
+			regTick = (frontierTs() - r.genesis) / tickSec
+		}
 		for !r.failed && frontierTs() < endTs {
 			for k := c.R.Intn(3); k > 0; k-- {
 				action()
 			}
+			if cfg.churn && !lateRevoked {
+				// directed: the late pillar is part of the elections (two ticks after its registration); it is revoked in the first
+				// tick of an epoch, so it is part of the first two ticks of that epoch and absent from the rest
+				tick := (frontierTs() - r.genesis) / tickSec
+				if tick >= regTick+3 && tick%ticksPerEpoch == 0 && n.Height()%3 == 0 {
+					if info, err := definition.GetPillarInfo(n.Chain().GetFrontierAccountStore(types.PillarContract).Storage(), "TEST-pillar-late"); err == nil {
+						fm, _ := n.Chain().GetFrontierMomentumStore().GetFrontierMomentum()
+						if info.RevokeTime != 0 {
+							lateRevoked = true
+							c.Hit("late-pillar-revoked-at-epoch-start")
+						} else if ok, _ := implementation.PillarGetRevokeStatus(info, fm); ok {
+							call("pillar-revoke-directed", g.Pillar7.Address, types.PillarContract, types.ZnnTokenStandard, nil, definition.ABIPillars.PackMethodPanic(definition.RevokeMethodName, "TEST-pillar-late"))
+						}
+					}
+				}
+			}
 			if !r.produce(gapOf()) {
 				break
+			}
+			// the node is asked for consensus statistics (as the RPC layer does for its clients), each answer is compared
+			if c.Args["audit"] != "0" && c.R.Intn(map[bool]int{true: 3, false: 8}[cfg.churn]) == 0 {
+				r.consensusAudit(1+c.R.Intn(3), c.R.Intn(4) == 0)
 			}
 		}
 	}
@@ -1512,6 +1562,12 @@ func rewardsNodeHistory(c *Ctx, id int) {
 	}
 	c.HitN("credits", r.credited)
 	c.Hit("history-complete")
+	if c.Args["audit"] != "0" && c.Args["audit"] != "ask-only" {
+		r.finalAudit()
+		if r.failed {
+			return
+		}
+	}
 	r.followers()
 }
 
@@ -1569,6 +1625,25 @@ func (r *rnRun) followers() {
 				pos += size
 				batches++
 				c.Hit("follower-batch")
+				if sc.name == "batches" && c.Args["audit"] != "0" && c.R.Intn(3) == 0 {
+					// this follower is asked for statistics while it syncs (the other followers never are)
+					safely(func() {
+						fm, err := f.ch.GetFrontierMomentumStore().GetFrontierMomentum()
+						if err != nil {
+							return
+						}
+						e := (fm.Timestamp.Unix() - r.genesis) / r.cfg.epochSec
+						rd := f.cons.FrontierPillarReader()
+						for k := 1 + c.R.Intn(3); k > 0; k-- {
+							rd.EpochStats(uint64(e))
+						}
+						if e > 0 {
+							rd.EpochStats(uint64(e - 1))
+						}
+						rd.GetPillarWeights()
+						c.Hit("follower-asked-while-syncing")
+					})
+				}
 				if sc.restart > 0 && batches%sc.restart == 0 && pos < len(chainA) {
 					if err := f.Restart(); err != nil {
 						r.fail("follower restart: %v", err)
